@@ -304,7 +304,7 @@ def main(chk, replay_file):
             info[name] = {"literal": L, "variables": V, "constants": cs}
             jobs.append(J(name, unit, "h_prog", unwind=401, flags=PF, timeout=600, checks=[c for c in hv.CBMC_CHECKS if c != "--signed-overflow-check"],
                           bounded=True, functions=["compiled images (literal / variable variants) on step()"], note="all v; embedded constants %s (bounded family)" % cs))
-    chk.extra["programs"] = info
+    chk.extra["program_sources"] = info
     chk.jobs = jobs
     hv.run_jobs(jobs, chk.out)
     # verdict
